@@ -18,9 +18,10 @@ import (
 )
 
 type cevalue struct {
-	i int64
-	b bool
+	i      int64
+	b      bool
 	isBool bool
+	unk    bool // lenient mode: value not computable (result of a call, string, …)
 }
 
 type ceval struct {
@@ -33,15 +34,30 @@ type ceval struct {
 	indexHook func(*ast.IndexExpr) (int64, bool)
 	// assigned records the variables written during the evaluation
 	assigned map[types.Object]bool
+	// lenient mode (event tracing of parser automata): expressions that cannot be evaluated yield an
+	// unknown value instead of failing; calls are reported to onCall; a condition on an unknown fails.
+	lenient bool
+	onCall  func(call *ast.CallExpr)
+	onStore func(o types.Object, rhs ast.Expr)
+	fatal   bool // a no-return call was executed on this path
 }
 
 type ceReturn struct{ v []cevalue }
 
 func (e *ceval) fail(format string, a ...any) cevalue {
+	if e.lenient {
+		return cevalue{unk: true}
+	}
 	if e.err == nil {
 		e.err = fmt.Errorf(format, a...)
 	}
 	return cevalue{}
+}
+
+func (e *ceval) hardFail(format string, a ...any) {
+	if e.err == nil {
+		e.err = fmt.Errorf(format, a...)
+	}
 }
 
 // constTable returns the integer elements of a package-level array/slice
@@ -248,6 +264,13 @@ func (e *ceval) stmt(st ast.Stmt) *ceReturn {
 		if e.err != nil {
 			return nil
 		}
+		if c.unk {
+			if e.lenient && x.Else == nil && blockDiverges(e.info, x.Body) {
+				return nil // a guard that only aborts: the continuing path is the one traced
+			}
+			e.hardFail("condition %s depends on a value that cannot be evaluated", types.ExprString(x.Cond))
+			return nil
+		}
 		if c.b {
 			return e.block(x.Body.List)
 		}
@@ -265,6 +288,10 @@ func (e *ceval) stmt(st ast.Stmt) *ceReturn {
 		var tag *cevalue
 		if x.Tag != nil {
 			t := e.expr(x.Tag)
+			if t.unk {
+				e.hardFail("switch tag cannot be evaluated")
+				return nil
+			}
 			tag = &t
 		}
 		var def *ast.CaseClause
@@ -279,6 +306,10 @@ func (e *ceval) stmt(st ast.Stmt) *ceReturn {
 				if e.err != nil {
 					return nil
 				}
+				if v.unk {
+					e.hardFail("case expression cannot be evaluated")
+					return nil
+				}
 				if (tag == nil && v.b) || (tag != nil && v.i == tag.i && v.isBool == tag.isBool && v.b == tag.b) {
 					return e.block(clause.Body)
 				}
@@ -290,17 +321,40 @@ func (e *ceval) stmt(st ast.Stmt) *ceReturn {
 		return nil
 	case *ast.AssignStmt:
 		if len(x.Lhs) != len(x.Rhs) {
+			if e.lenient {
+				for _, r := range x.Rhs {
+					e.expr(r)
+				}
+				for _, l := range x.Lhs {
+					if id, ok := l.(*ast.Ident); ok {
+						if o := e.info.ObjectOf(id); o != nil {
+							e.env[o] = cevalue{unk: true}
+							if e.onStore != nil {
+								e.onStore(o, x.Rhs[0])
+							}
+						}
+					}
+				}
+				return nil
+			}
 			e.fail("unsupported assignment")
 			return nil
 		}
 		for i, l := range x.Lhs {
 			id, ok := l.(*ast.Ident)
 			if !ok {
+				if e.lenient {
+					e.expr(x.Rhs[i])
+					continue
+				}
 				e.fail("assignment to non-identifier")
 				return nil
 			}
 			o := e.info.ObjectOf(id)
 			r := e.expr(x.Rhs[i])
+			if e.onStore != nil && o != nil {
+				e.onStore(o, x.Rhs[i])
+			}
 			switch x.Tok {
 			case token.ASSIGN, token.DEFINE:
 			case token.OR_ASSIGN:
@@ -342,6 +396,14 @@ func (e *ceval) stmt(st ast.Stmt) *ceReturn {
 	case *ast.BlockStmt:
 		return e.block(x.List)
 	case *ast.ExprStmt:
+		if call, ok := x.X.(*ast.CallExpr); ok && e.lenient {
+			if noReturnCall(e.info, call) {
+				e.fatal = true
+				return &ceReturn{}
+			}
+			e.expr(call)
+			return nil
+		}
 		if call, ok := x.X.(*ast.CallExpr); ok && isLoggingCall(e.info, call) {
 			return nil
 		}
@@ -391,6 +453,9 @@ func (e *ceval) expr(x ast.Expr) cevalue {
 		if v, ok := e.env[o]; ok {
 			return v
 		}
+		if e.lenient {
+			return cevalue{unk: true}
+		}
 		return e.fail("unknown identifier %s", t.Name)
 	case *ast.BasicLit:
 		if t.Kind == token.CHAR {
@@ -402,6 +467,9 @@ func (e *ceval) expr(x ast.Expr) cevalue {
 		return e.fail("unsupported literal")
 	case *ast.UnaryExpr:
 		v := e.expr(t.X)
+		if v.unk {
+			return v
+		}
 		switch t.Op {
 		case token.NOT:
 			return cevalue{b: !v.b, isBool: true}
@@ -412,6 +480,11 @@ func (e *ceval) expr(x ast.Expr) cevalue {
 		}
 		return e.fail("unsupported unary %s", t.Op)
 	case *ast.BinaryExpr:
+		if (t.Op == token.LAND || t.Op == token.LOR) && e.lenient {
+			if l := e.expr(t.X); l.unk {
+				return l
+			}
+		}
 		if t.Op == token.LAND {
 			l := e.expr(t.X)
 			if !l.b {
@@ -427,6 +500,9 @@ func (e *ceval) expr(x ast.Expr) cevalue {
 			return e.expr(t.Y)
 		}
 		l, r := e.expr(t.X), e.expr(t.Y)
+		if l.unk || r.unk {
+			return cevalue{unk: true}
+		}
 		bv := func(b bool) cevalue { return cevalue{b: b, isBool: true} }
 		switch t.Op {
 		case token.EQL:
@@ -489,7 +565,19 @@ func (e *ceval) expr(x ast.Expr) cevalue {
 	case *ast.CallExpr:
 		if tv, ok := e.info.Types[t.Fun]; ok && tv.IsType() && len(t.Args) == 1 {
 			v := e.expr(t.Args[0])
+			if v.unk {
+				return v
+			}
 			return cevalue{i: e.wrap(v.i, tv.Type)}
+		}
+		if e.lenient {
+			for _, a := range t.Args {
+				e.expr(a)
+			}
+			if e.onCall != nil {
+				e.onCall(t)
+			}
+			return cevalue{unk: true}
 		}
 		// call of another pure function of the same package
 		if fn := callee(e.info, t); fn != nil && e.c != nil {
